@@ -18,6 +18,7 @@ or dropped from a builder, or an arm added to or dropped from the model, breaks 
   gen_trait              the trait's defaults are what the model's `notSupported` arms say: every scalar / start
                          call rejects with `<method> is not supported` (`serialize_struct_start` says
                          `serialize_start_start`, as in the sources), `serialize_unit` forwards to `serialize_none`,
+                         `serialize_unit_struct` forwards to `serialize_unit` (repo fix ae2fc46),
                          `serialize_some` / `serialize_newtype_struct` are transparent
   gen_enum_forwards      `ArrayBuilder` overrides EVERY method and dispatches each to the method of the same name
   gen_serde_wiring       `impl Serializer for Mut<T>` and the seven compound traits call the expected trait methods
@@ -32,44 +33,46 @@ open SaModel.Generated.AcceptMatrix
 
 def trimR (s : String) : String := String.ofList (s.toList.reverse.dropWhile (· == ' ')).reverse
 
-/-- one serde call kind: the trait method that starts it, its position in the trait, the position of the
-method its default forwards to (only `serialize_unit`), the representative value whose `push` models the call
-(`none`: `serialize_default`, modelled by `pushDefault`), and the message of the (effective) default rejection -/
+/-- one serde call kind: the trait method that starts it, its position in the trait, the positions of the chain of
+methods its default forwards through (`serialize_unit` → `serialize_none`; since repo fix ae2fc46
+`serialize_unit_struct` → `serialize_unit` → `serialize_none`; empty for the others), the representative value whose
+`push` models the call (`none`: `serialize_default`, modelled by `pushDefault`), and the message of the (effective)
+default rejection -/
 structure Call where
   method : String
   pos : Nat
-  alt : Option Nat
+  alt : List Nat
   rep : Option SVal
   msg : String
 
 def calls : List Call := [
-  ⟨"serialize_default", 0, none, none, "serialize_default is not supported"⟩,
-  ⟨"serialize_unit", 1, some 2, some .unit, "serialize_unit/serialize_none is not supported"⟩,
-  ⟨"serialize_none", 2, none, some .none, "serialize_unit/serialize_none is not supported"⟩,
-  ⟨"serialize_bool", 4, none, some (.bool true), "serialize_bool is not supported"⟩,
-  ⟨"serialize_char", 5, none, some (.char 97), "serialize_char is not supported"⟩,
-  ⟨"serialize_u8", 6, none, some (.int .u8 1), "serialize_u8 is not supported"⟩,
-  ⟨"serialize_u16", 7, none, some (.int .u16 1), "serialize_u16 is not supported"⟩,
-  ⟨"serialize_u32", 8, none, some (.int .u32 1), "serialize_u32 is not supported"⟩,
-  ⟨"serialize_u64", 9, none, some (.int .u64 1), "serialize_u64 is not supported"⟩,
-  ⟨"serialize_i8", 10, none, some (.int .i8 1), "serialize_i8 is not supported"⟩,
-  ⟨"serialize_i16", 11, none, some (.int .i16 1), "serialize_i16 is not supported"⟩,
-  ⟨"serialize_i32", 12, none, some (.int .i32 1), "serialize_i32 is not supported"⟩,
-  ⟨"serialize_i64", 13, none, some (.int .i64 1), "serialize_i64 is not supported"⟩,
-  ⟨"serialize_f32", 14, none, some (.f32 0), "serialize_f32 is not supported"⟩,
-  ⟨"serialize_f64", 15, none, some (.f64 0), "serialize_f64 is not supported"⟩,
-  ⟨"serialize_bytes", 16, none, some (.bytes []), "serialize_bytes is not supported"⟩,
-  ⟨"serialize_str", 17, none, some (.str "a"), "serialize_str is not supported"⟩,
-  ⟨"serialize_newtype_variant", 19, none, some (.newtypeVariant "E" 0 "A" .unit), "serialize_newtype_variant is not supported"⟩,
-  ⟨"serialize_unit_struct", 20, none, some (.unitStruct "U"), "serialize_unit_struct is not supported"⟩,
-  ⟨"serialize_unit_variant", 21, none, some (.unitVariant "E" 0 "A"), "serialize_unit_variant is not supported"⟩,
-  ⟨"serialize_map_start", 22, none, some (.map .nil), "serialize_map_start is not supported"⟩,
-  ⟨"serialize_seq_start", 26, none, some (.seq .nil), "serialize_seq_start is not supported"⟩,
-  ⟨"serialize_struct_start", 29, none, some (.record "S" .nil), "serialize_start_start is not supported"⟩,
-  ⟨"serialize_tuple_start", 32, none, some (.tuple .nil), "serialize_tuple_start is not supported"⟩,
-  ⟨"serialize_tuple_struct_start", 35, none, some (.tupleStruct "T" .nil), "serialize_tuple_struct_start is not supported"⟩,
-  ⟨"serialize_struct_variant_start", 38, none, some (.structVariant "E" 0 "A" .nil), "serialize_struct_variant_start is not supported"⟩,
-  ⟨"serialize_tuple_variant_start", 39, none, some (.tupleVariant "E" 0 "A" .nil), "serialize_tuple_variant_start is not supported"⟩]
+  ⟨"serialize_default", 0, [], none, "serialize_default is not supported"⟩,
+  ⟨"serialize_unit", 1, [2], some .unit, "serialize_unit/serialize_none is not supported"⟩,
+  ⟨"serialize_none", 2, [], some .none, "serialize_unit/serialize_none is not supported"⟩,
+  ⟨"serialize_bool", 4, [], some (.bool true), "serialize_bool is not supported"⟩,
+  ⟨"serialize_char", 5, [], some (.char 97), "serialize_char is not supported"⟩,
+  ⟨"serialize_u8", 6, [], some (.int .u8 1), "serialize_u8 is not supported"⟩,
+  ⟨"serialize_u16", 7, [], some (.int .u16 1), "serialize_u16 is not supported"⟩,
+  ⟨"serialize_u32", 8, [], some (.int .u32 1), "serialize_u32 is not supported"⟩,
+  ⟨"serialize_u64", 9, [], some (.int .u64 1), "serialize_u64 is not supported"⟩,
+  ⟨"serialize_i8", 10, [], some (.int .i8 1), "serialize_i8 is not supported"⟩,
+  ⟨"serialize_i16", 11, [], some (.int .i16 1), "serialize_i16 is not supported"⟩,
+  ⟨"serialize_i32", 12, [], some (.int .i32 1), "serialize_i32 is not supported"⟩,
+  ⟨"serialize_i64", 13, [], some (.int .i64 1), "serialize_i64 is not supported"⟩,
+  ⟨"serialize_f32", 14, [], some (.f32 0), "serialize_f32 is not supported"⟩,
+  ⟨"serialize_f64", 15, [], some (.f64 0), "serialize_f64 is not supported"⟩,
+  ⟨"serialize_bytes", 16, [], some (.bytes []), "serialize_bytes is not supported"⟩,
+  ⟨"serialize_str", 17, [], some (.str "a"), "serialize_str is not supported"⟩,
+  ⟨"serialize_newtype_variant", 19, [], some (.newtypeVariant "E" 0 "A" .unit), "serialize_newtype_variant is not supported"⟩,
+  ⟨"serialize_unit_struct", 20, [1, 2], some (.unitStruct "U"), "serialize_unit/serialize_none is not supported"⟩,
+  ⟨"serialize_unit_variant", 21, [], some (.unitVariant "E" 0 "A"), "serialize_unit_variant is not supported"⟩,
+  ⟨"serialize_map_start", 22, [], some (.map .nil), "serialize_map_start is not supported"⟩,
+  ⟨"serialize_seq_start", 26, [], some (.seq .nil), "serialize_seq_start is not supported"⟩,
+  ⟨"serialize_struct_start", 29, [], some (.record "S" .nil), "serialize_start_start is not supported"⟩,
+  ⟨"serialize_tuple_start", 32, [], some (.tuple .nil), "serialize_tuple_start is not supported"⟩,
+  ⟨"serialize_tuple_struct_start", 35, [], some (.tupleStruct "T" .nil), "serialize_tuple_struct_start is not supported"⟩,
+  ⟨"serialize_struct_variant_start", 38, [], some (.structVariant "E" 0 "A" .nil), "serialize_struct_variant_start is not supported"⟩,
+  ⟨"serialize_tuple_variant_start", 39, [], some (.tupleVariant "E" 0 "A" .nil), "serialize_tuple_variant_start is not supported"⟩]
 
 /-- the continuation methods of a compound call: (position of `x_start`, positions of `x_element` … `x_end`), names -/
 def groups : List (Nat × List Nat × List String) := [
@@ -84,20 +87,25 @@ def transparent : List (Nat × String) := [(3, "serialize_some"), (18, "serializ
 
 def nameAt (k : Nat) : Option String := traitMethods[k]?.map (·.1)
 
-/-- does the trait's default of `c` reject with `c.msg` (directly, or for `serialize_unit` through its forward) -/
-def callOk (c : Call) : Bool :=
-  match traitMethods[c.pos]?, c.alt with
-  | some (n, "reject", msg), none => n == c.method && trimR msg == c.msg
-  | some (n, "forward", target), some a =>
-    n == c.method && (match traitMethods[a]? with
-      | some (n', "reject", msg) => n' == target && trimR msg == c.msg
-      | _ => false)
-  | _, _ => false
+/-- following the forwards of the trait's defaults from the method at `pos` named `name` along `chain`: every step
+is a `forward` to the name of the next position, the last default rejects with `msg` -/
+def chainOk (msg : String) : Nat → String → List Nat → Bool
+  | pos, name, [] =>
+    match traitMethods[pos]? with
+    | some (n, "reject", m) => n == name && trimR m == msg
+    | _ => false
+  | pos, name, a :: rest =>
+    match traitMethods[pos]?, traitMethods[a]? with
+    | some (n, "forward", target), some (n', _, _) => n == name && n' == target && chainOk msg a target rest
+    | _, _ => false
+
+/-- does the trait's default of `c` reject with `c.msg` (directly, or through its forwards) -/
+def callOk (c : Call) : Bool := chainOk c.msg c.pos c.method c.alt
 
 /-- **the trait's defaults are the ones the model assumes**: the positions used below carry the names written
 beside them; every call start rejects by default with `<name> is not supported` (two irregular names, as in the
-sources), `serialize_unit` forwards to `serialize_none`; the continuations reject; the remaining two methods are
-transparent; and that is every method of the trait -/
+sources), `serialize_unit` forwards to `serialize_none` and `serialize_unit_struct` to `serialize_unit`; the
+continuations reject; the remaining two methods are transparent; and that is every method of the trait -/
 theorem gen_trait :
     calls.all callOk = true ∧
     (∀ g ∈ groups, (g.1 :: g.2.1).map nameAt = g.2.2.map some) ∧
@@ -144,10 +152,10 @@ theorem gen_groups :
 
 /-! ### the two matrices -/
 
-/-- Rust: does the impl override the call (for `serialize_unit`: itself or, through the default forward,
-`serialize_none`) -/
+/-- Rust: does the impl override the call (itself or, through the default forwards, a method of its chain:
+`serialize_unit` → `serialize_none`, `serialize_unit_struct` → `serialize_unit` → `serialize_none`) -/
 def rustRow (i : Impl) : List Bool :=
-  calls.map fun c => i.idx.contains c.pos || (match c.alt with | some a => i.idx.contains a | none => false)
+  calls.map fun c => i.idx.contains c.pos || c.alt.any (i.idx.contains ·)
 
 def ext0 : Ext := {}
 
@@ -233,7 +241,7 @@ def offenders : List String := arms.flatMap armDiff
 
 example : (build (.date32, [])).map modelRow =
     some (calls.map fun c => ["serialize_default", "serialize_unit", "serialize_none", "serialize_str", "serialize_i32",
-      "serialize_i64"].contains c.method) := by decide +kernel
+      "serialize_i64", "serialize_unit_struct"].contains c.method) := by decide +kernel
 example : (build (.union (.cons 0 (.mk "A" .null true []) .nil) .dense, [])).map modelRow =
     some (calls.map fun c => ["serialize_default", "serialize_unit_variant", "serialize_newtype_variant",
       "serialize_struct_variant_start", "serialize_tuple_variant_start"].contains c.method) := by decide +kernel
